@@ -8,13 +8,16 @@ VERUS = {
     # float/src/convert.rs: FBig::with_precision (C08/C10), Repr::to_int (C10); base/src/approx.rs Approximation::map,
     # float/src/fbig.rs FBig::new, float/src/repr.rs Context::new
     'float_conv': {'file': 'float_conv.rs', 'w32': False},
+    # rational/src/convert.rs: Repr::{to_f32, to_f64} (two known-finding regions excluded by precondition);
+    # base/src/approx.rs Approximation::and_then; base/src/sign.rs Sign::{mul, neg, cmp}
+    'ratio_to_float': {'file': 'ratio_to_float.rs', 'w32': False},
 }
 
 KANI = {
 }
 
 PROP_UNITS = {
-    'C06': {'verus': ['int_to_float', 'float_to_f', 'float_conv']},
+    'C06': {'verus': ['int_to_float', 'float_to_f', 'float_conv', 'ratio_to_float']},
     'C08': {'verus': ['float_conv']},
     'C10': {'verus': ['float_conv']},
 }
